@@ -68,6 +68,7 @@ Definition step_okb (c : case) (prev : lim) (o : op) (e : Z) (l : lim) : bool :=
     | Attach d => (e =? 0)
                   && (impb (negb (is_some (c_start c))) (impb (keys_le_255b d) (impb (sorted_keysb d) (l_start l =? spec_start d)))
                   && impb (negb (is_some (c_max c))) (impb (sorted_keysb d) (l_max l =? spec_max d)))
+    | UpdateCurve _ _ => (e =? 0) && lim_eqb l prev
     | _ => e =? 0
     end.
 
@@ -97,6 +98,7 @@ Definition step_ok (c : case) (prev : lim) (o : op) (e : Z) (l : lim) : Prop :=
   | Attach d => e = 0 /\
                 (c_start c = None -> keys_le_255 d -> sorted_keys d -> start_spec d (l_start l)) /\
                 (c_max c = None -> sorted_keys d -> max_spec d (l_max l))
+  | UpdateCurve _ _ => e = 0 /\ l = prev
   | _ => e = 0
   end.
 
@@ -263,7 +265,7 @@ Qed.
 Lemma step_okb_iff c prev o e l : step_okb c prev o e l = true <-> step_ok c prev o e l.
 Proof.
   unfold step_okb, step_ok. apply impb_iff; [apply is_hwmon_iff|intros _].
-  destruct o as [d|v b|v b|v b]; try apply Z.eqb_eq.
+  destruct o as [d|v b|v b|v b|k r]; try apply Z.eqb_eq; [|apply andb_iff; [apply Z.eqb_eq|apply lim_eqb_iff]].
   destruct d as [|kv t].
   - apply andb_iff; [apply Z.eqb_eq|apply lim_eqb_iff].
   - set (d := kv :: t). apply andb_iff; [apply Z.eqb_eq|]. apply andb_iff.
